@@ -348,3 +348,98 @@ def checks(tier):
                       "preemption points of one actor (as in C10d.concurrent_reader_1), the second at every third of the first 39 of the other",
                outside="3 or more preemptions; alternates; several readers", time_budget=6000, tiers=("thorough",)),
     ]
+
+
+# ---------------------------------------------------------------------------------------------
+# (e) another actor lands a pack (a push) while maintenance runs: nothing it brought in is lost
+_b10e = checks
+
+
+def h_concurrent_writer(eng, op="repack", kmax=400, layout=(1, 1)):
+    """two actors: B repacks / collects garbage; A (a push arriving through another Repo object) adds a pack with a new
+    commit and points a new branch at it, running to completion at a symbolic point of B's file-system-call sequence
+    (reads included: B's decisions depend on what it lists): afterwards every object reachable from every ref is readable
+    and intact, for a fresh process"""
+    from greenlet import getcurrent
+    from vf.interpose import Interposer
+    from vf.props.C08 import Sched
+    from dulwich.objects import Blob, Tree, Commit
+    d, r, g, roots = _mk(eng, layout=True, ncommits=2, fix={"head": 1, "has_tag_ref": True, "branch_at": 1, "c0_tree": 0, "c1_tree": 1,
+                                                             "c1_p0": True, "tag_target": 0, "where_commits_tags": layout[0],
+                                                             "where_trees_blobs": layout[1]})
+    try:
+        want = sorted(s for s in closure(g["adj"], roots) if s in g["by_id"])
+        r.close()
+        r = Repo(d)
+        pusher = Repo(d)
+        nb = Blob.from_string(b"pushed blob\n")
+        nt = Tree()
+        nt.add(b"p", 0o100644, nb.id)
+        nc = Commit()
+        nc.tree = nt.id
+        nc.parents = [g["commits"][1].id]
+        nc.author = nc.committer = b"P <p@p>"
+        nc.author_time = nc.commit_time = 5000
+        nc.author_timezone = nc.commit_timezone = 0
+        nc.message = b"pushed"
+        k1 = eng.choice("push_arrives_before_call_div32", (kmax + 31) // 32) * 32 + eng.choice("push_arrives_before_call_mod32", 32)
+        if op == "gc0" and eng.known("C10-gc-nograce-vs-push"):
+            eng.assume(False)            # region of the known finding: pruning without a grace period while a writer is active
+
+        def push():
+            pusher.object_store.add_objects([(nb, None), (nt, None), (nc, None)])
+            pusher.refs[b"refs/heads/pushed"] = nc.id
+
+        def maintain():
+            if op == "repack":
+                r.object_store.repack()
+            elif op == "pack_loose":
+                r.object_store.pack_loose_objects()
+            elif op == "gc0":
+                GC.garbage_collect(r, prune=True, grace_period=None)
+            else:
+                GC.garbage_collect(r)
+        s = Sched(1, k1, None)                     # actor 1 (maintenance) is preempted before its k1-th call; actor 0 then runs fully
+        with Interposer(d, s.hook, wrap_reads=True):
+            res = s.run([push, maintain])
+        eng.assume(s.count.get(1, 0) > k1)
+        r.close()
+        pusher.close()
+        tag = f"[{op}, layout {layout}; the push lands before call {k1} of the maintenance actor; results {res}]"
+        eng.prove(res[0][0] == "ok" and res[1][0] == "ok", f"{tag} both actors complete")
+        fresh = Repo(d)
+        try:
+            eng.prove(fresh.refs[b"refs/heads/pushed"] == nc.id, f"{tag} the pushed branch is there")
+            for o in (nc, nt, nb):
+                try:
+                    got = fresh.object_store[o.id]
+                    eng.prove(got.as_raw_string() == o.as_raw_string(), f"{tag} pushed {o.type_name.decode()} intact")
+                except KeyError:
+                    eng.fail(f"{tag} the pushed {o.type_name.decode()} {o.id[:8]!r}, reachable from refs/heads/pushed, is gone")
+            for sha in want:
+                try:
+                    got = fresh.object_store[sha]
+                    eng.prove(got.as_raw_string() == g["by_id"][sha].as_raw_string(), f"{tag} previously reachable object intact")
+                except KeyError:
+                    eng.fail(f"{tag} previously reachable object {sha[:8]!r} is gone")
+        finally:
+            fresh.close()
+    finally:
+        r.close()
+        shutil.rmtree(d, ignore_errors=True)
+
+
+def checks(tier):
+    return _b10e(tier) + [
+        KCheck("C10e.concurrent_writer", h_concurrent_writer,
+               parts=[{"op": o, "kmax": k, "layout": l} for o, k in (("repack", 400), ("pack_loose", 400), ("gc0", 1000), ("gc_default", 1000))
+                      for l in ((1, 1), (0, 1), (2, 2))],
+               encoded=["dulwich.object_store.PackBasedObjectStore.repack/pack_loose_objects", "dulwich.gc.garbage_collect",
+                        "dulwich.object_store.DiskObjectStore.add_objects/_complete_pack/_remove_pack", "dulwich.refs.DiskRefsContainer.__setitem__"],
+               bounds="graph of 2 commits (all packed; history loose + contents packed; everything loose and packed); a push (3-object "
+                      "pack + new branch) by a second Repo object runs to completion before any one of the first 400 (repack, "
+                      "pack_loose_objects) / 1000 (gc) file-system calls of the maintenance actor, reads included",
+               outside="the push itself interrupted by maintenance steps (two-sided interleaving); several pushes; gc with the grace "
+                       "period disabled (known finding C10-gc-nograce-vs-push)", time_budget=2400,
+               tiers=("quick", "thorough")),
+    ]
